@@ -142,6 +142,39 @@ func (a *EpochBitmapAllocator) Allocate(ctx context.Context, subscriberID string
 	return nil, ErrPoolExhausted
 }
 
+// SetAllocation binds a subscriber to a specific IP (for replaying allocations
+// recorded in the distributed store). The slot is stamped with the current
+// generation, exactly as Allocate would.
+func (a *EpochBitmapAllocator) SetAllocation(subscriberID string, ip net.IP) error {
+	a.mu.Lock()
+	defer a.mu.Unlock()
+
+	idx, err := a.ipToIndex(ip)
+	if err != nil {
+		return err
+	}
+	if idx == 0 || idx == a.totalIPs-1 {
+		return fmt.Errorf("IP %s is not allocatable", ip)
+	}
+
+	if owner, owned := a.ipToSubscriber[idx]; owned && owner != subscriberID {
+		if !a.isGenerationFree(a.getGeneration(idx), a.freeThreshold()) {
+			return fmt.Errorf("IP %s already allocated to %s", ip, owner)
+		}
+		delete(a.subscribers, owner) // expired holder
+	}
+
+	// Drop a different address the subscriber may hold
+	if oldIdx, exists := a.subscribers[subscriberID]; exists && oldIdx != idx {
+		delete(a.ipToSubscriber, oldIdx)
+	}
+
+	a.setGeneration(idx, a.currentGeneration())
+	a.subscribers[subscriberID] = idx
+	a.ipToSubscriber[idx] = subscriberID
+	return nil
+}
+
 // Renew updates the generation for an existing allocation.
 // This extends the lease without changing the IP.
 func (a *EpochBitmapAllocator) Renew(ctx context.Context, subscriberID string) error {
